@@ -32,7 +32,7 @@ type c09Case struct {
 	Skew100  int    `json:"skew_x100"` // zipf exponent * 100
 	Universe int    `json:"universe"`  // zipf: number of distinct keys as a multiple of MaxSize
 	Seed     uint64 `json:"seed"`
-	Pre      int    `json:"pre"` // operations per goroutine in the concurrent pre-phase (8 goroutines); 0 = none
+	Pre      int    `json:"pre"`                // operations per goroutine in the concurrent pre-phase (8 goroutines); 0 = none
 	PreSecs  int    `json:"pre_secs,omitempty"` // thorough tier: a long contended pre-phase (4 x GOMAXPROCS goroutines, mostly hits) of this many seconds
 }
 
